@@ -34,7 +34,11 @@ FMT_A = struct.pack("<HHIIHH", 1, 1, 22050, 44100, 2, 16)
 FMT_B = struct.pack("<HHIIHH", 1, 2, 44100, 176400, 4, 16)
 FMT_C = struct.pack("<HHIIHH", 1, 1, 8000, 8000, 1, 8)
 FMT_D = struct.pack("<HHIIHH", 0xFFFE, 6, 48000, 864000, 18, 24)
-FORMATS = [FMT_A, FMT_B, FMT_C, FMT_D]
+FMT_E = struct.pack("<HHIIHH", 1, 1, 22050, 44100, 2, 12)          # 12-bit samples in 16-bit words: blockAlign != channels*bits/8
+FMT_F = struct.pack("<HHIIHH", 1, 2, 44100, 264600, 6, 20)         # 20-bit samples in 3-byte words
+FMT_G = struct.pack("<HHIIHH", 0x11, 1, 22050, 11100, 512, 4)      # ADPCM-style: avgBytesPerSec != rate*blockAlign
+FMT_H = struct.pack("<HHIIHH", 1, 1, 0xFFFFFFFF, 1, 0xFFFF, 0)     # boundary values in every dependent field
+FORMATS = [FMT_A, FMT_B, FMT_C, FMT_D, FMT_E, FMT_F, FMT_G, FMT_H]
 EXTRA_TAGS = [b"LIST", b"fact", b"JUNK", b"cue ", b"smpl", b"junk", b"FMT ", b"DATA", b"Data"]
 ALPHA = b"abcdefghijklmnopqrstuvwxyzABCDEFGHIJKLMNOPQRSTUVWXYZ0123456789_"
 DATA_LENS = [0, 1, 2, 3, 4, 5, 7, 8, 255, 256]
